@@ -48,12 +48,12 @@ CLAIMED = {
         "reachable avoiding excluded; tensor-level 'leaves that matter') on all programs with <= 4 tensors (5 thorough), "
         "every call, every deque order, with termination; each (program, call) is replayed as defaulted vs explicit call on "
         "the real torchjd (rejected iff the model says the default sets overlap, else identical .grad); logged real autograd "
-        "graphs of random larger programs are validated by TLC with the same actions."),
+        "graphs of random larger programs are validated by TLC with the same actions. Every program is explored under every admissible assignment of float64 / float32 / complex128 / complex64 to its user tensors (parameters aggregated together share one element type), .grad compared exactly."),
  "C13": dict(mods="GraphLife.tla (instantiates JacChunks.tla), TraceGraphLife.tla", ref="7 C13",
    text="TLC checks on a family of graph skeletons that torchjd's sweep sequences refine a single torch.autograd sweep "
         "w.r.t. per-node freed state for all histories of <= 3 calls (no self-inflicted failure, frees exactly what the "
         "twin frees, retain_graph=True frees nothing); histories are executed on torchjd and on a torch-only twin graph with "
-        "per-node probes after every call; random mtl-shaped graphs with 3-call histories are validated by TLC."),
+        "per-node probes after every call; random mtl-shaped graphs with 3-call histories are validated by TLC. The shape family includes parameter-free heads in any position (StripHeads) and heads with parameter-only branches that save tensors (ParamOnlyBranchesFreed)."),
  "C20": dict(mods="Rejection.tla, FixedProg.tla, TraceRejection.tla", ref="7 C20",
    text="TLC enumerates every (valid base call, fault kind, position of the fault, pre-existing grads) on the fixed program "
         "and checks that the code's sequence of checks and writes never writes before a check that can still reject "
